@@ -399,7 +399,7 @@ func chanField(v ssa.Value) string {
 	if n == nil {
 		return ""
 	}
-	return n.Obj().Name() + "." + fieldName(fa.X.Type(), fa.Field)
+	return tname(n.Obj()) + "." + fieldName(fa.X.Type(), fa.Field)
 }
 
 func ruleX4(c *Ctx) {
